@@ -233,13 +233,21 @@ pub fn gen_c20(tier: &str, seed: u64, out: &mut Vec<String>) {
     let m = if tier == "thorough" { 3_000 } else { 300 };
     for _ in 0..m {
         let plen = 2 + rng.below(12) as usize;
-        let prog = random_program(&mut rng, plen, true);
+        // no RET here: every transfer is direct, so control stays on instruction boundaries and the program provably touches
+        // only the registers written below (returns are covered by the fully-written families)
+        let prog = random_program(&mut rng, plen, false);
         let (code, _) = assemble(&prog, CODE);
         raw.push(format!("newraw {} {:x} {:x}", hex(&code), CODE, CODE));
         dec_all(&code, CODE, &mut raw);
         raw.push("stack 200".into());
         for r in ["RAX", "RCX", "RDX", "RBX"] {
-            raw.push(format!("rw 64 {} {:x}", r, rng.val()));
+            // never a code address: `push r; ret` would otherwise land inside an instruction, whose bytes decode to something
+            // that legitimately reads registers this family leaves unwritten
+            let mut v = rng.val();
+            if v & !0xfff == CODE & !0xfff {
+                v ^= 0x1000_0000;
+            }
+            raw.push(format!("rw 64 {} {:x}", r, v));
         }
         raw.push(format!("maxinstr {:x}", 1 + rng.below(40)));
         let by_step = rng.chance(1, 2);
